@@ -23,6 +23,9 @@ type Prop struct {
 	Real, Stub []string
 	// Assumptions for the evidence file.
 	Assumptions []string
+	// RunTimeout is the real-time budget of one run in seconds (0 = the
+	// worker's default of 60).
+	RunTimeout int
 }
 
 // Registry maps property id to its check.
